@@ -861,6 +861,14 @@ def run(pid, tier, replay=None):
                        [c_i.calc_target(cs_i, 2, now_i, bi[1]).hex()]
         itr2 = interfere.explore_pair(chk, pid, "verdict_of_the_rule", ff, fb, quick, rng, max_points=4000)
         interfere.judge(chk, itr + itr2, pid)
+        # ---- and a block that fails this property's rule stays out of the node's chain state and store whatever the miner's thread does meanwhile
+        from checks import handover
+        sk.apply_cfg(cfg_i)
+        mk = {"C01": lambda w_, b_: w_.concretise(blkd(11, 1, 2, [cbd(11, 2, 4), dict(txd(111, [(0, 0, 2)], [(8, 2)]), mut="wrongkey")]), owners={1: {0: 1}}),
+              "C02": lambda w_, b_: b_[7],
+              "C05": lambda w_, b_: w_.concretise(dict(blkd(12, 1, 2, [cbd(12, 2, 4)]), ts=b_[1].timestamp))}[pid]
+        handover.stage_adversarial(chk, quick, rng, pid, cfg_i, keys, nodechk.build_universe, mk,
+                                   {"C01": "spend_not_authorised_by_the_owner", "C02": "reward_above_subsidy_plus_fees", "C05": "timestamp_not_later_than_the_parent_s"}[pid])
         sk.restore_cfg()
     if chk.traces_validated == 0:
         return machinery_failure(pid, "no trace was validated")
